@@ -19,6 +19,7 @@ type quantInfo struct {
 	q      *Term
 	body   *Term // includes the range guard
 	sk     *Term
+	triggers []*Term
 }
 
 func (e *Engine) quantifier(fr *Frame, st *State, forall bool, args []Value, site ssa.Instruction) *Term {
@@ -52,51 +53,55 @@ func (e *Engine) quantifier(fr *Frame, st *State, forall bool, args []Value, sit
 }
 
 // expandQuantifiers returns the axioms for all quantifier placeholders reachable
-// from the given formulas.
-func (e *Engine) expandQuantifiers(fs []*Term) []*Term {
+// from the given formulas. Instances are chosen by matching: a quantified body
+// that reads memory M at (r, c+q) is instantiated for every ground read of M
+// at (r', j) with r' possibly equal to r, taking q := j - c.
+func (e *Engine) expandQuantifiers(fs []*Term, goalFs []*Term) []*Term {
 	var axioms []*Term
 	done := map[string]map[int]bool{} // placeholder -> instantiated term ids
 	skdone := map[string]bool{}
 	all := append([]*Term(nil), fs...)
 	polFs := append([]*Term(nil), fs...) // formulas that determine polarities (axiom heads excluded)
+	boundNames := map[string]bool{}
+	for _, qi := range e.quantVars {
+		boundNames[qi.q.name] = true
+	}
+	// ground terms used for matching come from the goal side (and from the
+	// axioms generated here), not from the whole path condition: instances are
+	// needed for what is being proved, not for everything read so far
+	matchFs := append([]*Term(nil), goalFs...)
 	for round := 0; round < 3; round++ {
-		// collect placeholders and candidate index terms
 		seen := map[int]bool{}
 		var qs []*quantInfo
-		cands := map[int]*Term{}
+		var ground []*Term
 		for _, f := range all {
 			Walk(f, seen, func(t *Term) {
 				if t.op == "var" {
 					if qi, ok := e.quantVars[t.name]; ok {
 						qs = append(qs, qi)
 					}
-					return
 				}
+			})
+		}
+		seenG := map[int]bool{}
+		for _, f := range matchFs {
+			Walk(f, seenG, func(t *Term) {
 				if t.op == "uf" {
-					// memory reads: index arguments of sort Int
-					for i, a := range t.args {
-						if i >= 1 && a.sort == IntSort {
-							cands[a.id] = a
-							// the Go-level index is the memory index minus the slice offset:
-							// offer the sum without each single addend as well
-							if a.op == "bvadd" {
-								for k := range a.args {
-									rest := make([]*Term, 0, len(a.args)-1)
-									rest = append(rest, a.args[:k]...)
-									rest = append(rest, a.args[k+1:]...)
-									r := bvSum(a.sort, rest...)
-									cands[r.id] = r
-								}
-							}
-						}
-					}
+					ground = append(ground, t)
 				}
 			})
 		}
 		if len(qs) == 0 {
 			break
 		}
-		// polarity of every placeholder in the conjunction of all formulas
+		// keep only ground applications (no bound variable inside)
+		var g2 []*Term
+		for _, g := range ground {
+			if !mentionsAny(g, boundNames) {
+				g2 = append(g2, g)
+			}
+		}
+		ground = g2
 		pol := polarities(polFs, e.quantVars)
 		var newAx []*Term
 		for _, qi := range qs {
@@ -106,7 +111,6 @@ func (e *Engine) expandQuantifiers(fs []*Term) []*Term {
 			if !qi.forall {
 				needWitness, needInst = needInst, needWitness
 			}
-			// witness
 			if needWitness && !skdone[qi.p.name] {
 				skdone[qi.p.name] = true
 				inst := Subst(qi.body, map[string]*Term{qi.q.name: qi.sk})
@@ -118,24 +122,20 @@ func (e *Engine) expandQuantifiers(fs []*Term) []*Term {
 					polFs = append(polFs, inst)
 				}
 			}
+			if !needInst {
+				continue
+			}
 			d := done[qi.p.name]
 			if d == nil {
 				d = map[int]bool{}
 				done[qi.p.name] = d
 			}
 			n := 0
-			if !needInst {
-				continue
-			}
-			for id, t := range cands {
-				if d[id] || n > 400 {
+			for _, t := range e.matchInstances(qi, ground) {
+				if d[t.id] || n > 64 {
 					continue
 				}
-				// do not instantiate with terms mentioning the bound variable itself
-				if mentions(t, qi.q.name) {
-					continue
-				}
-				d[id] = true
+				d[t.id] = true
 				n++
 				inst := Subst(qi.body, map[string]*Term{qi.q.name: t})
 				if qi.forall {
@@ -152,8 +152,123 @@ func (e *Engine) expandQuantifiers(fs []*Term) []*Term {
 		}
 		axioms = append(axioms, newAx...)
 		all = append(all, newAx...)
+		matchFs = append(matchFs, newAx...)
 	}
 	return axioms
+}
+
+// triggers of a quantifier: uninterpreted applications in its body that mention the bound variable.
+func (qi *quantInfo) getTriggers() []*Term {
+	if qi.triggers != nil {
+		return qi.triggers
+	}
+	qi.triggers = []*Term{}
+	Walk(qi.body, map[int]bool{}, func(t *Term) {
+		if t.op == "uf" && mentions(t, qi.q.name) {
+			qi.triggers = append(qi.triggers, t)
+		}
+	})
+	return qi.triggers
+}
+
+// matchInstances solves pattern(q) = ground for q, for linear index patterns.
+func (e *Engine) matchInstances(qi *quantInfo, ground []*Term) []*Term {
+	var out, loose []*Term
+	seen := map[int]bool{}
+	add := func(t *Term, exact bool) {
+		if !seen[t.id] && !mentions(t, qi.q.name) {
+			seen[t.id] = true
+			if exact {
+				out = append(out, t)
+			} else {
+				loose = append(loose, t)
+			}
+		}
+	}
+	for _, p := range qi.getTriggers() {
+		// position of the argument holding q, which must be q or a sum containing q once
+		pos := -1
+		okPat := true
+		for i, a := range p.args {
+			if !mentions(a, qi.q.name) {
+				continue
+			}
+			if pos >= 0 {
+				okPat = false
+				break
+			}
+			pos = i
+		}
+		if !okPat || pos < 0 {
+			continue
+		}
+		pa := p.args[pos]
+		var rest []*Term // addends other than q
+		switch {
+		case pa == qi.q:
+		case pa.op == "bvadd":
+			cnt := 0
+			for _, x := range pa.args {
+				if x == qi.q {
+					cnt++
+				} else if mentions(x, qi.q.name) {
+					cnt = 99
+				} else {
+					rest = append(rest, x)
+				}
+			}
+			if cnt != 1 {
+				continue
+			}
+		default:
+			continue
+		}
+		for _, g := range ground {
+			if g.name != p.name || len(g.args) != len(p.args) {
+				continue
+			}
+			match, exact := true, true
+			for i := range g.args {
+				if i == pos {
+					continue
+				}
+				if g.args[i] != p.args[i] {
+					exact = false
+				}
+				if EqOff(g.args[i], p.args[i]) == False {
+					match = false
+					break
+				}
+			}
+			if !match {
+				continue
+			}
+			terms := []*Term{g.args[pos]}
+			for _, x := range rest {
+				terms = append(terms, BVNeg(x))
+			}
+			add(bvSum(pa.sort, terms...), exact)
+		}
+	}
+	// reads of the very same region first; reads of regions that merely might
+	// alias are used only when there is no exact match, and sparingly
+	if len(out) == 0 && len(loose) > 0 {
+		if len(loose) > 8 {
+			loose = loose[:8]
+		}
+		return loose
+	}
+	return out
+}
+
+func mentionsAny(t *Term, names map[string]bool) bool {
+	found := false
+	Walk(t, map[int]bool{}, func(x *Term) {
+		if x.op == "var" && names[x.name] {
+			found = true
+		}
+	})
+	return found
 }
 
 func mentions(t *Term, name string) bool {
